@@ -2,7 +2,7 @@
    Only ExtrOcamlBasic is used: bool, option, unit, list, prod, sumbool map to OCaml's;
    N, Z, positive and nat stay the extracted inductive types. *)
 Require Import ExtrOcamlBasic.
-From Verif Require Import Base.Bytes B2F.Md5 B2F.Secure B2F.Side B2F.Grammar Catalog.PosReport Transport.Url Transport.Agwpe Transport.Ardop Transport.Telnet Msg.Body Msg.Message Mbox.Confine Mbox.Dir Mbox.Crash Lzhuf.Huff Lzhuf.Enc Lzhuf.Crc Lzhuf.Dec Lzhuf.Canon.
+From Verif Require Import Base.Bytes B2F.Md5 B2F.Secure B2F.Status B2F.Side B2F.Grammar Catalog.PosReport Transport.Url Transport.Agwpe Transport.Ardop Transport.Telnet Msg.Body Msg.Message Mbox.Confine Mbox.Dir Mbox.Crash Lzhuf.Huff Lzhuf.Enc Lzhuf.Crc Lzhuf.Dec Lzhuf.Canon.
 Extraction Language OCaml.
 Extraction "model.ml"
   md5 secure_response send_handshake
@@ -16,4 +16,5 @@ Extraction "model.ml"
   agw_encode agw_read_frames want conn_delivers data_frame outstanding_frame register_frame unregister_frame disconnect_frame connect_frame conn_reads
   ardop_crc16 host_cmd ardop_write ardop_decode parse_ctrl ctrl_run cs_init write_try tnc_parse_data
   telnet_client telnet_server dial_run
+  session_ok send_reports recv_reports
   message_write read_from address_from_string address_string header_write parse_date_ok.
